@@ -24,6 +24,7 @@ import (
 	"math/big"
 	"reflect"
 	"runtime"
+	"sort"
 	"strconv"
 	"strings"
 	"testing/iotest"
@@ -49,6 +50,8 @@ func (t *c11Ty) String() string {
 		return "res(" + t.sub[0].String() + "," + t.sub[1].String() + ")"
 	case "arr":
 		return fmt.Sprintf("arr%d(%s)", t.n, t.sub[0])
+	case "map":
+		return "map(" + t.sub[0].String() + "," + t.sub[1].String() + ")"
 	case "st":
 		var fs []string
 		for i, s := range t.sub {
@@ -144,13 +147,13 @@ func (p *c11Parser) ty() *c11Ty {
 		s := p.ty()
 		p.eat(')')
 		return &c11Ty{kind: id, sub: []*c11Ty{s}}
-	case id == "res":
+	case id == "res" || id == "map":
 		p.eat('(')
 		a := p.ty()
 		p.eat(',')
 		b := p.ty()
 		p.eat(')')
-		return &c11Ty{kind: "res", sub: []*c11Ty{a, b}}
+		return &c11Ty{kind: id, sub: []*c11Ty{a, b}}
 	case strings.HasPrefix(id, "arr"):
 		n, err := strconv.Atoi(id[3:])
 		if err != nil {
@@ -378,6 +381,8 @@ func (t *c11Ty) goType() reflect.Type {
 		return reflect.TypeOf(Result{})
 	case "arr":
 		return reflect.ArrayOf(t.n, t.sub[0].goType())
+	case "map":
+		return reflect.MapOf(t.sub[0].goType(), t.sub[1].goType())
 	case "seq":
 		return reflect.SliceOf(t.sub[0].goType())
 	case "st":
@@ -490,6 +495,20 @@ func (t *c11Ty) build(p *c11Parser) reflect.Value {
 			panic("c11: result set: " + err.Error())
 		}
 		v.Set(reflect.ValueOf(r))
+	case "map":
+		m := reflect.MakeMap(v.Type())
+		p.eat('{')
+		for p.peek() != '}' {
+			k := t.sub[0].build(p)
+			p.eat(':')
+			x := t.sub[1].build(p)
+			m.SetMapIndex(k, x)
+			if p.peek() == ',' {
+				p.i++
+			}
+		}
+		p.eat('}')
+		v.Set(m)
 	case "arr", "seq":
 		p.eat('[')
 		var xs []reflect.Value
@@ -802,6 +821,13 @@ func c11GenVal(r *vhRng, t *c11Ty) string {
 			xs[i] = c11GenVal(r, t.sub[0])
 		}
 		return "[" + strings.Join(xs, ",") + "]"
+	case "map":
+		n := r.Intn(4)
+		xs := make([]string, n)
+		for i := range xs {
+			xs[i] = c11GenVal(r, t.sub[0]) + ":" + c11GenVal(r, t.sub[1])
+		}
+		return "{" + strings.Join(xs, ",") + "}"
 	case "st":
 		xs := make([]string, len(t.sub))
 		for i, s := range t.sub {
@@ -1018,6 +1044,15 @@ func (e *c12Evil) app(out []byte, t *c11Ty, v reflect.Value) []byte {
 			return e.app(append(out, e.tag(0)), t.sub[0], reflect.ValueOf(x.ok))
 		}
 		return e.app(append(out, e.tag(1)), t.sub[1], reflect.ValueOf(x.err))
+	case "map": // canonical: ascending keys
+		out = append(out, e.length(v.Len())...)
+		keys := v.MapKeys()
+		sort.Slice(keys, func(i, j int) bool { return c11KeyLess(keys[i], keys[j]) })
+		for _, k := range keys {
+			out = e.app(out, t.sub[0], k)
+			out = e.app(out, t.sub[1], v.MapIndex(k))
+		}
+		return out
 	case "arr", "seq":
 		if t.kind == "seq" {
 			out = append(out, e.length(v.Len())...)
@@ -1208,6 +1243,158 @@ func c11HasByteString(t *c11Ty) bool {
 	return false
 }
 
+// c11Equal compares two Go values structurally (big integers by value, nil and empty byte
+// strings / slices identified: SCALE cannot distinguish them).
+func c11Equal(a, b reflect.Value) bool {
+	return c11Canon(a) == c11Canon(b)
+}
+
+func c11Canon(v reflect.Value) string { return c11CanonAny(v) }
+
+func c11CanonAny(v reflect.Value) string {
+	if !v.IsValid() {
+		return "<invalid>"
+	}
+	if v.CanInterface() {
+		switch x := v.Interface().(type) {
+		case Result:
+			switch x.mode {
+			case OK:
+				return "O" + c11CanonAny(reflect.ValueOf(x.ok))
+			case Err:
+				return "E" + c11CanonAny(reflect.ValueOf(x.err))
+			}
+			return "R?"
+		case c11VDT:
+			if x.inner == nil {
+				return "V?"
+			}
+			return fmt.Sprintf("V%d:%s", x.idx[x.cur], c11CanonAny(reflect.ValueOf(x.inner)))
+		case c11EnumA:
+			i, val, err := x.IndexValue()
+			if err != nil {
+				return "V?"
+			}
+			return fmt.Sprintf("V%d:%s", i, c11CanonAny(reflect.ValueOf(val)))
+		case c11EnumB:
+			i, val, err := x.IndexValue()
+			if err != nil {
+				return "V?"
+			}
+			return fmt.Sprintf("V%d:%s", i, c11CanonAny(reflect.ValueOf(val)))
+		case empty:
+			return "u"
+		}
+	}
+	switch v.Kind() {
+	case reflect.Ptr:
+		if v.IsNil() {
+			return "N"
+		}
+		if v.CanInterface() {
+			switch x := v.Interface().(type) {
+			case interface{ String() string }:
+				return x.String() // *big.Int, *Uint128
+			}
+		}
+		return "S" + c11CanonAny(v.Elem())
+	case reflect.Struct:
+		var xs []string
+		for i := 0; i < v.NumField(); i++ {
+			if v.Type().Field(i).PkgPath != "" {
+				xs = append(xs, "_")
+				continue
+			}
+			xs = append(xs, c11CanonAny(v.Field(i)))
+		}
+		return "(" + strings.Join(xs, ",") + ")"
+	case reflect.Map:
+		keys := c11SortedKeys(v)
+		var xs []string
+		for _, k := range keys {
+			xs = append(xs, c11CanonAny(k)+":"+c11CanonAny(v.MapIndex(k)))
+		}
+		return "{" + strings.Join(xs, ",") + "}"
+	case reflect.Slice:
+		if v.Type().Elem().Kind() == reflect.Uint8 {
+			return "x" + vhHex(v.Bytes())
+		}
+		fallthrough
+	case reflect.Array:
+		var xs []string
+		for i := 0; i < v.Len(); i++ {
+			xs = append(xs, c11CanonAny(v.Index(i)))
+		}
+		return "[" + strings.Join(xs, ",") + "]"
+	case reflect.String:
+		return "x" + vhHex([]byte(v.String()))
+	}
+	return fmt.Sprint(v.Interface())
+}
+
+// c11DirtyVal is a fixed non-zero value of type t (value syntax): what a "dirty" destination holds
+// before decoding.  The Lean driver computes the same value (C12.dirtyVal).
+func c11DirtyVal(t *c11Ty) string {
+	switch t.kind {
+	case "unit":
+		return "u"
+	case "opt":
+		return "S" + c11DirtyVal(t.sub[0])
+	case "res":
+		return "O" + c11DirtyVal(t.sub[0])
+	case "arr":
+		xs := make([]string, t.n)
+		for i := range xs {
+			xs[i] = c11DirtyVal(t.sub[0])
+		}
+		return "[" + strings.Join(xs, ",") + "]"
+	case "seq":
+		return "[" + c11DirtyVal(t.sub[0]) + "]"
+	case "map":
+		return "{" + c11DirtyVal(t.sub[0]) + ":" + c11DirtyVal(t.sub[1]) + "}"
+	case "st":
+		xs := make([]string, len(t.sub))
+		for i, s := range t.sub {
+			if t.tags[i] == "-" {
+				xs[i] = "0"
+			} else {
+				xs[i] = c11DirtyVal(s)
+			}
+		}
+		return "(" + strings.Join(xs, ",") + ")"
+	case "en":
+		return fmt.Sprintf("V%d:%s", t.idx[0], c11DirtyVal(t.sub[0]))
+	case "bool":
+		return "t"
+	case "bytes", "str":
+		return "xaa"
+	case "i8", "i16", "i32", "i64":
+		return "-1"
+	}
+	return "1"
+}
+
+// c11DecodeDirty decodes data (Decoder over a bytes.Buffer) into a destination that already holds
+// c11DirtyVal(t): the decoded value must not depend on it.
+func c11DecodeDirty(t *c11Ty, data []byte) (out string) {
+	defer func() {
+		if r := recover(); r != nil {
+			if _, ok := r.(c11TooBig); ok {
+				out = "err"
+				return
+			}
+			out = "panic"
+		}
+	}()
+	dst := reflect.New(t.goType())
+	dst.Elem().Set(c11BuildValue(t, c11DirtyVal(t)))
+	rd := &c11Abort{r: bytes.NewBuffer(append([]byte{}, data...)), limit: len(data) + 65536}
+	if err := NewDecoder(rd).Decode(dst.Interface()); err != nil {
+		return "err"
+	}
+	return "ok:" + vhHex(c11RefEncode(t, dst.Elem()))
+}
+
 // c11DecodeAll is c11Decode followed, for every reader kind whose outcome (err / value) differs
 // from the bytes.Buffer outcome, by " <kind>=<outcome>".  The chunking readers (half, one, derr) are
 // used for types without byte strings and for a bare byte string / string.  Skipped when the decoder allocated a
@@ -1233,6 +1420,9 @@ func c11DecodeAll(t *c11Ty, data []byte) string {
 		if o := c11DecodeVia(t, k, data); o != base {
 			out += " " + k + "=" + o
 		}
+	}
+	if o := c11DecodeDirty(t, data); o != base {
+		out += " dirty=" + o
 	}
 	return out
 }
